@@ -53,6 +53,19 @@ Next == \/ Ask /\ Log("Ask")
         \/ \E d \in Ticks : Tick(d) /\ Log(<<"Tick", d>>)
 Spec == Init /\ [][Next]_vars
 
+\* n overlapping IsOpen() calls. Closed or half-open: everyone passes. Open, timeout not elapsed: nobody.
+\* Open with the timeout elapsed: the caller that moves the breaker to half-open passes and so does everyone
+\* who comes after it; a caller that loaded "open" and lost the move is refused -- C08 fixes no number of
+\* probes for this breaker, so any count from 1 to n is the admitted behaviour (lo/hi bounds).
+RaceSizes == {2, 6}
+RaceLo(n) == IF st = "open" THEN (IF sinceFail > Timeout THEN 1 ELSE 0) ELSE n
+RaceHi(n) == IF st = "open" /\ sinceFail <= Timeout THEN 0 ELSE n
+Race(n) == /\ act' = "Race" /\ res' = "none"
+           /\ st' = IF st = "open" /\ sinceFail > Timeout THEN "half" ELSE st
+           /\ UNCHANGED <<failures, sinceFail, consec>>
+NextR == Next \/ \E n \in RaceSizes : Race(n) /\ Log(<<"Race", n>>)
+SpecR == Init /\ [][NextR]_vars
+
 -----------------------------------------------------------------------------
 (* Property C08, engine breaker *)
 OpensOnlyAfterThreshold == [][(st = "closed" /\ st' = "open") => consec' >= Threshold]_vars
